@@ -491,6 +491,12 @@ module N =
   | S n' -> Npos (Coq_Pos.of_succ_nat n')
  end
 
+(** val tl : 'a1 list -> 'a1 list **)
+
+let tl = function
+| [] -> []
+| _ :: m -> m
+
 (** val nth : nat -> 'a1 list -> 'a1 -> 'a1 **)
 
 let rec nth n0 l default =
@@ -559,17 +565,17 @@ let rec filter f = function
 
 let rec find f = function
 | [] -> None
-| x :: tl -> if f x then Some x else find f tl
+| x :: tl0 -> if f x then Some x else find f tl0
 
 (** val combine : 'a1 list -> 'a2 list -> ('a1 * 'a2) list **)
 
 let rec combine l l' =
   match l with
   | [] -> []
-  | x :: tl ->
+  | x :: tl0 ->
     (match l' with
      | [] -> []
-     | y :: tl' -> (x, y) :: (combine tl tl'))
+     | y :: tl' -> (x, y) :: (combine tl0 tl'))
 
 (** val skipn : nat -> 'a1 list -> 'a1 list **)
 
@@ -4017,6 +4023,26 @@ let is_blocking_pull = function
               else None
             | _ :: _ -> None))))
 
+(** val split_on_tok : str -> str list -> str list list **)
+
+let rec split_on_tok sep = function
+| [] -> [] :: []
+| t :: ts' ->
+  if str_eqb t sep
+  then [] :: (split_on_tok sep ts')
+  else (match split_on_tok sep ts' with
+        | [] -> (t :: []) :: []
+        | w :: ws -> (t :: w) :: ws)
+
+(** val intersperse : str -> str list -> str list **)
+
+let rec intersperse sep = function
+| [] -> []
+| x :: l' ->
+  (match l' with
+   | [] -> x :: []
+   | _ :: _ -> x :: (sep :: (intersperse sep l')))
+
 (** val ep_prefix : str **)
 
 let ep_prefix =
@@ -4284,6 +4310,41 @@ let sorted_registry sv =
   isort (fun a b -> str_ltb (show_sub_name (fst a)) (show_sub_name (fst b)))
     sv.sv_reg
 
+(** val run_seq_parts :
+    server -> n list -> str list -> str list -> ((server * n list) * str
+    list) * str **)
+
+let run_seq_parts sv seen acks args =
+  let parts =
+    split_on_tok ((Npos (XI (XI (XO (XI (XI XH)))))) :: ((Npos (XI (XI (XO
+      (XI (XI XH)))))) :: [])) args
+  in
+  let (p, outs) =
+    fold_left (fun acc part ->
+      let (p, o0) = acc in
+      let (p0, ak0) = p in
+      let (s0, sn0) = p0 in
+      (match parse_op part with
+       | Some r ->
+         let (s1, p1) = api_step s0 r in
+         let (line, sn1) = render sn0 r p1 in
+         (((s1, sn1), (app ak0 (resp_acks p1))), (app o0 (line :: [])))
+       | None ->
+         (((s0, sn0), ak0),
+           (app o0 (((Npos (XI (XI (XI (XI (XI XH)))))) :: []) :: [])))))
+      parts (((sv, seen), acks), [])
+  in
+  (p,
+  (join_sp
+    ((kw (String ((Ascii (true, true, false, false, true, false, true,
+       false)), (String ((Ascii (true, false, true, false, false, false,
+       true, false)), (String ((Ascii (true, false, false, false, true,
+       false, true, false)), EmptyString))))))) :: (intersperse ((Npos (XI
+                                                     (XI (XO (XI (XI
+                                                     XH)))))) :: ((Npos (XI
+                                                     (XI (XO (XI (XI
+                                                     XH)))))) :: [])) outs))))
+
 (** val run_lines :
     server -> n list -> str list -> (n * str) list -> (n * outcome list) list
     -> str list list -> str list **)
@@ -4330,281 +4391,208 @@ let rec run_lines sv seen acks bg eps = function
                       false, true, false, false, false, true, false)),
                       EmptyString))))))))))) :: (run_lines sv seen acks bg
                                                   eps rest)
-               else if is_kw (String ((Ascii (true, false, true, true, false,
-                         false, true, false)), (String ((Ascii (true, true,
-                         true, true, false, false, true, false)), (String
-                         ((Ascii (false, false, true, false, false, false,
-                         true, false)), (String ((Ascii (true, false, true,
-                         false, false, false, true, false)),
-                         EmptyString)))))))) op
-                    then (kw (String ((Ascii (true, false, true, true, false,
-                           false, true, false)), (String ((Ascii (true, true,
-                           true, true, false, false, true, false)), (String
-                           ((Ascii (false, false, true, false, false, false,
-                           true, false)), (String ((Ascii (true, false, true,
-                           false, false, false, true, false)),
-                           EmptyString))))))))) :: (run_lines sv seen acks bg
-                                                     eps rest)
-                    else if is_kw (String ((Ascii (true, false, true, false,
+               else if is_kw (String ((Ascii (true, true, false, false, true,
+                         false, true, false)), (String ((Ascii (true, false,
+                         true, false, false, false, true, false)), (String
+                         ((Ascii (true, false, false, false, true, false,
+                         true, false)), EmptyString)))))) op
+                    then let (p, line) = run_seq_parts sv seen acks args in
+                         let (p0, acks') = p in
+                         let (sv', seen') = p0 in
+                         line :: (run_lines sv' seen' acks' bg eps rest)
+                    else if is_kw (String ((Ascii (true, false, true, true,
                               false, false, true, false)), (String ((Ascii
-                              (false, false, false, false, true, false, true,
-                              false)), EmptyString)))) op
-                         then (match args with
-                               | [] ->
-                                 ((Npos (XI (XI (XI (XI (XI
-                                   XH)))))) :: []) :: (run_lines sv seen acks
-                                                        bg eps rest)
-                               | kt :: l ->
-                                 (match l with
-                                  | [] ->
-                                    ((Npos (XI (XI (XI (XI (XI
-                                      XH)))))) :: []) :: (run_lines sv seen
-                                                           acks bg eps rest)
-                                  | _ :: outs ->
-                                    (match p_nat kt with
-                                     | Some k ->
-                                       (match parse_all parse_outcome outs with
-                                        | Some l0 ->
-                                          (kw (String ((Ascii (true, false,
-                                            true, false, false, false, true,
-                                            false)), (String ((Ascii (false,
-                                            false, false, false, true, false,
-                                            true, false)), EmptyString))))) :: 
-                                            (run_lines sv seen acks bg
-                                              (ep_set eps k
-                                                (app (ep_script eps k) l0))
-                                              rest)
-                                        | None ->
-                                          ((Npos (XI (XI (XI (XI (XI
-                                            XH)))))) :: []) :: (run_lines sv
-                                                                 seen acks bg
-                                                                 eps rest))
-                                     | None ->
-                                       ((Npos (XI (XI (XI (XI (XI
-                                         XH)))))) :: []) :: (run_lines sv
-                                                              seen acks bg
-                                                              eps rest))))
-                         else if is_kw (String ((Ascii (false, true, false,
-                                   false, true, false, true, false)), (String
-                                   ((Ascii (true, true, true, true, false,
-                                   false, true, false)), (String ((Ascii
-                                   (true, false, true, false, true, false,
-                                   true, false)), (String ((Ascii (false,
-                                   true, true, true, false, false, true,
-                                   false)), (String ((Ascii (false, false,
-                                   true, false, false, false, true, false)),
-                                   EmptyString)))))))))) op
-                              then let (p, hung) =
-                                     push_round sv eps (sorted_registry sv)
-                                   in
-                                   let (p0, posts) = p in
-                                   let (sv1, eps1) = p0 in
-                                   let sv2 =
-                                     if hung
-                                     then fst
-                                            (api_step sv1 (RAdvance
-                                              (N.mul (Npos (XO (XO (XI (XO
-                                                XH))))) ns_per_s)))
-                                     else sv1
-                                   in
-                                   (join_sp
-                                     (app
-                                       ((kw (String ((Ascii (false, true,
-                                          false, false, true, false, true,
-                                          false)), (String ((Ascii (true,
-                                          true, true, true, false, false,
-                                          true, false)), (String ((Ascii
-                                          (true, false, true, false, true,
-                                          false, true, false)), (String
-                                          ((Ascii (false, true, true, true,
-                                          false, false, true, false)),
-                                          (String ((Ascii (false, false,
-                                          true, false, false, false, true,
-                                          false)), EmptyString))))))))))) :: (
-                                       (r_num (len_N posts)) :: []))
-                                       (flat_map (fun x ->
-                                         r_post (fst (fst x)) (snd (fst x))
-                                           (snd x)) posts))) :: (run_lines
-                                                                  sv2 seen
-                                                                  acks bg
-                                                                  eps1 rest)
-                              else if is_kw (String ((Ascii (false, false,
-                                        true, true, false, false, true,
+                              (true, true, true, true, false, false, true,
+                              false)), (String ((Ascii (false, false, true,
+                              false, false, false, true, false)), (String
+                              ((Ascii (true, false, true, false, false,
+                              false, true, false)), EmptyString)))))))) op
+                         then (kw (String ((Ascii (true, false, true, true,
+                                false, false, true, false)), (String ((Ascii
+                                (true, true, true, true, false, false, true,
+                                false)), (String ((Ascii (false, false, true,
+                                false, false, false, true, false)), (String
+                                ((Ascii (true, false, true, false, false,
+                                false, true, false)), EmptyString))))))))) :: 
+                                (run_lines sv seen acks bg eps rest)
+                         else if is_kw (String ((Ascii (true, false, true,
+                                   false, false, false, true, false)),
+                                   (String ((Ascii (false, false, false,
+                                   false, true, false, true, false)),
+                                   EmptyString)))) op
+                              then (match args with
+                                    | [] ->
+                                      ((Npos (XI (XI (XI (XI (XI
+                                        XH)))))) :: []) :: (run_lines sv seen
+                                                             acks bg eps rest)
+                                    | kt :: l ->
+                                      (match l with
+                                       | [] ->
+                                         ((Npos (XI (XI (XI (XI (XI
+                                           XH)))))) :: []) :: (run_lines sv
+                                                                seen acks bg
+                                                                eps rest)
+                                       | _ :: outs ->
+                                         (match p_nat kt with
+                                          | Some k ->
+                                            (match parse_all parse_outcome
+                                                     outs with
+                                             | Some l0 ->
+                                               (kw (String ((Ascii (true,
+                                                 false, true, false, false,
+                                                 false, true, false)),
+                                                 (String ((Ascii (false,
+                                                 false, false, false, true,
+                                                 false, true, false)),
+                                                 EmptyString))))) :: 
+                                                 (run_lines sv seen acks bg
+                                                   (ep_set eps k
+                                                     (app (ep_script eps k)
+                                                       l0)) rest)
+                                             | None ->
+                                               ((Npos (XI (XI (XI (XI (XI
+                                                 XH)))))) :: []) :: (run_lines
+                                                                    sv seen
+                                                                    acks bg
+                                                                    eps rest))
+                                          | None ->
+                                            ((Npos (XI (XI (XI (XI (XI
+                                              XH)))))) :: []) :: (run_lines
+                                                                   sv seen
+                                                                   acks bg
+                                                                   eps rest))))
+                              else if is_kw (String ((Ascii (false, true,
+                                        false, false, true, false, true,
                                         false)), (String ((Ascii (true, true,
                                         true, true, false, false, true,
-                                        false)), (String ((Ascii (true, true,
-                                        true, true, false, false, true,
-                                        false)), (String ((Ascii (false,
-                                        false, false, false, true, false,
-                                        true, false)), EmptyString)))))))) op
-                                   then let n0 =
-                                          match args with
-                                          | [] -> S O
-                                          | _ :: l ->
-                                            (match l with
-                                             | [] -> S O
-                                             | r :: l0 ->
-                                               (match l0 with
-                                                | [] ->
-                                                  (match p_nat r with
-                                                   | Some k -> S (N.to_nat k)
-                                                   | None -> S O)
-                                                | _ :: _ -> S O))
-                                        in
-                                        let (p, posts) = push_rounds n0 sv eps
-                                        in
-                                        let (sv1, eps1) = p in
-                                        let subs =
-                                          map (fun e ->
-                                            show_sub_name (fst e))
+                                        false)), (String ((Ascii (true,
+                                        false, true, false, true, false,
+                                        true, false)), (String ((Ascii
+                                        (false, true, true, true, false,
+                                        false, true, false)), (String ((Ascii
+                                        (false, false, true, false, false,
+                                        false, true, false)),
+                                        EmptyString)))))))))) op
+                                   then let (p, hung) =
+                                          push_round sv eps
                                             (sorted_registry sv)
                                         in
-                                        let per = fun s ->
-                                          filter (fun x ->
-                                            str_eqb (snd (fst x)) s) posts
-                                        in
-                                        let groups =
-                                          filter (fun s ->
-                                            negb (is_nil (per s))) subs
+                                        let (p0, posts) = p in
+                                        let (sv1, eps1) = p0 in
+                                        let sv2 =
+                                          if hung
+                                          then fst
+                                                 (api_step sv1 (RAdvance
+                                                   (N.mul (Npos (XO (XO (XI
+                                                     (XO XH))))) ns_per_s)))
+                                          else sv1
                                         in
                                         (join_sp
                                           (app
                                             ((kw (String ((Ascii (false,
-                                               false, true, true, false,
+                                               true, false, false, true,
                                                false, true, false)), (String
                                                ((Ascii (true, true, true,
                                                true, false, false, true,
                                                false)), (String ((Ascii
-                                               (true, true, true, true,
+                                               (true, false, true, false,
+                                               true, false, true, false)),
+                                               (String ((Ascii (false, true,
+                                               true, true, false, false,
+                                               true, false)), (String ((Ascii
+                                               (false, false, true, false,
                                                false, false, true, false)),
-                                               (String ((Ascii (false, false,
-                                               false, false, true, false,
-                                               true, false)),
-                                               EmptyString))))))))) :: (
-                                            (r_num (len_N groups)) :: []))
-                                            (flat_map (fun s ->
-                                              let ids =
-                                                dedup_sorted
-                                                  (isort N.ltb
-                                                    (map (fun x ->
-                                                      (fst (snd x)).l_msg.m_id)
-                                                      (per s)))
-                                              in
-                                              app
-                                                ((r_str s) :: ((r_num
-                                                                 (len_N
-                                                                   (per s))) :: (
-                                                (r_num (len_N ids)) :: [])))
-                                                (map (fun i ->
-                                                  r_str (dec_of_N i)) ids))
-                                              groups))) :: (run_lines sv1
-                                                             seen acks bg
-                                                             eps1 rest)
+                                               EmptyString))))))))))) :: (
+                                            (r_num (len_N posts)) :: []))
+                                            (flat_map (fun x ->
+                                              r_post (fst (fst x))
+                                                (snd (fst x)) (snd x)) posts))) :: 
+                                        (run_lines sv2 seen acks bg eps1 rest)
                                    else if is_kw (String ((Ascii (false,
-                                             true, false, false, false,
+                                             false, true, true, false, false,
+                                             true, false)), (String ((Ascii
+                                             (true, true, true, true, false,
                                              false, true, false)), (String
-                                             ((Ascii (true, true, true,
-                                             false, false, false, true,
-                                             false)), EmptyString)))) op
-                                        then (match args with
-                                              | [] ->
-                                                ((Npos (XI (XI (XI (XI (XI
-                                                  XH)))))) :: []) :: 
-                                                  (run_lines sv seen acks bg
-                                                    eps rest)
-                                              | idt :: inner ->
-                                                (match p_nat idt with
-                                                 | Some id ->
-                                                   (match is_blocking_pull
-                                                            inner with
-                                                    | Some p ->
-                                                      let (s, m) = p in
-                                                      (match p_str s with
-                                                       | Some s' ->
-                                                         (match p_int m with
-                                                          | Some m' ->
-                                                            let (sv', _) =
-                                                              api_step sv
-                                                                (RPullBg (id,
-                                                                s', m'))
-                                                            in
-                                                            (kw (String
-                                                              ((Ascii (false,
-                                                              true, false,
-                                                              false, false,
-                                                              false, true,
-                                                              false)),
-                                                              (String ((Ascii
-                                                              (true, true,
-                                                              true, false,
-                                                              false, false,
-                                                              true, false)),
-                                                              EmptyString))))) :: 
-                                                            (run_lines sv'
-                                                              seen acks bg
-                                                              eps rest)
-                                                          | None ->
-                                                            ((Npos (XI (XI
-                                                              (XI (XI (XI
-                                                              XH)))))) :: []) :: 
-                                                              (run_lines sv
-                                                                seen acks bg
-                                                                eps rest))
-                                                       | None ->
-                                                         ((Npos (XI (XI (XI
-                                                           (XI (XI
-                                                           XH)))))) :: []) :: 
-                                                           (run_lines sv seen
-                                                             acks bg eps rest))
-                                                    | None ->
-                                                      (match parse_op inner with
-                                                       | Some r ->
-                                                         let (sv', p) =
-                                                           api_step sv r
-                                                         in
-                                                         let (line, seen') =
-                                                           render seen r p
-                                                         in
-                                                         (kw (String ((Ascii
-                                                           (false, true,
-                                                           false, false,
-                                                           false, false,
-                                                           true, false)),
-                                                           (String ((Ascii
-                                                           (true, true, true,
-                                                           false, false,
-                                                           false, true,
-                                                           false)),
-                                                           EmptyString))))) :: 
-                                                         (run_lines sv' seen'
-                                                           (app acks
-                                                             (resp_acks p))
-                                                           ((id, line) :: bg)
-                                                           eps rest)
-                                                       | None ->
-                                                         ((Npos (XI (XI (XI
-                                                           (XI (XI
-                                                           XH)))))) :: []) :: 
-                                                           (run_lines sv seen
-                                                             acks bg eps rest)))
-                                                 | None ->
-                                                   ((Npos (XI (XI (XI (XI (XI
-                                                     XH)))))) :: []) :: 
-                                                     (run_lines sv seen acks
-                                                       bg eps rest)))
+                                             ((Ascii (true, true, true, true,
+                                             false, false, true, false)),
+                                             (String ((Ascii (false, false,
+                                             false, false, true, false, true,
+                                             false)), EmptyString)))))))) op
+                                        then let n0 =
+                                               match args with
+                                               | [] -> S O
+                                               | _ :: l ->
+                                                 (match l with
+                                                  | [] -> S O
+                                                  | r :: l0 ->
+                                                    (match l0 with
+                                                     | [] ->
+                                                       (match p_nat r with
+                                                        | Some k ->
+                                                          S (N.to_nat k)
+                                                        | None -> S O)
+                                                     | _ :: _ -> S O))
+                                             in
+                                             let (p, posts) =
+                                               push_rounds n0 sv eps
+                                             in
+                                             let (sv1, eps1) = p in
+                                             let subs =
+                                               map (fun e ->
+                                                 show_sub_name (fst e))
+                                                 (sorted_registry sv)
+                                             in
+                                             let per = fun s ->
+                                               filter (fun x ->
+                                                 str_eqb (snd (fst x)) s)
+                                                 posts
+                                             in
+                                             let groups =
+                                               filter (fun s ->
+                                                 negb (is_nil (per s))) subs
+                                             in
+                                             (join_sp
+                                               (app
+                                                 ((kw (String ((Ascii (false,
+                                                    false, true, true, false,
+                                                    false, true, false)),
+                                                    (String ((Ascii (true,
+                                                    true, true, true, false,
+                                                    false, true, false)),
+                                                    (String ((Ascii (true,
+                                                    true, true, true, false,
+                                                    false, true, false)),
+                                                    (String ((Ascii (false,
+                                                    false, false, false,
+                                                    true, false, true,
+                                                    false)),
+                                                    EmptyString))))))))) :: (
+                                                 (r_num (len_N groups)) :: []))
+                                                 (flat_map (fun s ->
+                                                   let ids =
+                                                     dedup_sorted
+                                                       (isort N.ltb
+                                                         (map (fun x ->
+                                                           (fst (snd x)).l_msg.m_id)
+                                                           (per s)))
+                                                   in
+                                                   app
+                                                     ((r_str s) :: ((r_num
+                                                                    (len_N
+                                                                    (per s))) :: (
+                                                     (r_num (len_N ids)) :: [])))
+                                                     (map (fun i ->
+                                                       r_str (dec_of_N i))
+                                                       ids)) groups))) :: 
+                                             (run_lines sv1 seen acks bg eps1
+                                               rest)
                                         else if is_kw (String ((Ascii (false,
-                                                  true, false, true, false,
+                                                  true, false, false, false,
                                                   false, true, false)),
                                                   (String ((Ascii (true,
-                                                  true, true, true, false,
+                                                  true, true, false, false,
                                                   false, true, false)),
-                                                  (String ((Ascii (true,
-                                                  false, false, true, false,
-                                                  false, true, false)),
-                                                  (String ((Ascii (false,
-                                                  true, true, true, false,
-                                                  false, true, false)),
-                                                  EmptyString)))))))) op
+                                                  EmptyString)))) op
                                              then (match args with
                                                    | [] ->
                                                      ((Npos (XI (XI (XI (XI
@@ -4612,22 +4600,32 @@ let rec run_lines sv seen acks bg eps = function
                                                        XH)))))) :: []) :: 
                                                        (run_lines sv seen
                                                          acks bg eps rest)
-                                                   | idt :: l ->
-                                                     (match l with
-                                                      | [] ->
-                                                        (match p_nat idt with
-                                                         | Some id ->
-                                                           (match alookup
-                                                                    N.eqb id
-                                                                    bg with
-                                                            | Some line ->
-                                                              (join_sp
-                                                                ((kw (String
+                                                   | idt :: inner ->
+                                                     (match p_nat idt with
+                                                      | Some id ->
+                                                        (match is_blocking_pull
+                                                                 inner with
+                                                         | Some p ->
+                                                           let (s, m) = p in
+                                                           (match p_str s with
+                                                            | Some s' ->
+                                                              (match 
+                                                               p_int m with
+                                                               | Some m' ->
+                                                                 let (
+                                                                   sv', _) =
+                                                                   api_step
+                                                                    sv
+                                                                    (RPullBg
+                                                                    (id, s',
+                                                                    m'))
+                                                                 in
+                                                                 (kw (String
                                                                    ((Ascii
                                                                    (false,
                                                                    true,
                                                                    false,
-                                                                   true,
+                                                                   false,
                                                                    false,
                                                                    false,
                                                                    true,
@@ -4637,129 +4635,352 @@ let rec run_lines sv seen acks bg eps = function
                                                                    (true,
                                                                    true,
                                                                    true,
-                                                                   true,
                                                                    false,
-                                                                   false,
-                                                                   true,
-                                                                   false)),
-                                                                   (String
-                                                                   ((Ascii
-                                                                   (true,
-                                                                   false,
-                                                                   false,
-                                                                   true,
                                                                    false,
                                                                    false,
                                                                    true,
                                                                    false)),
-                                                                   (String
-                                                                   ((Ascii
-                                                                   (false,
-                                                                   true,
-                                                                   true,
-                                                                   true,
-                                                                   false,
-                                                                   false,
-                                                                   true,
-                                                                   false)),
-                                                                   EmptyString))))))))) :: (
-                                                                (r_num id) :: (line :: [])))) :: 
+                                                                   EmptyString))))) :: 
+                                                                 (run_lines
+                                                                   sv' seen
+                                                                   acks bg
+                                                                   eps rest)
+                                                               | None ->
+                                                                 ((Npos (XI
+                                                                   (XI (XI
+                                                                   (XI (XI
+                                                                   XH)))))) :: []) :: 
+                                                                   (run_lines
+                                                                    sv seen
+                                                                    acks bg
+                                                                    eps rest))
+                                                            | None ->
+                                                              ((Npos (XI (XI
+                                                                (XI (XI (XI
+                                                                XH)))))) :: []) :: 
                                                                 (run_lines sv
                                                                   seen acks
-                                                                  (aremove
-                                                                    N.eqb id
-                                                                    bg) eps
-                                                                  rest)
-                                                            | None ->
-                                                              let (sv', p) =
-                                                                api_step sv
-                                                                  (RJoin id)
-                                                              in
-                                                              let (line, seen') =
-                                                                render seen
-                                                                  (RJoin id) p
-                                                              in
-                                                              (join_sp
-                                                                ((kw (String
-                                                                   ((Ascii
-                                                                   (false,
-                                                                   true,
-                                                                   false,
-                                                                   true,
-                                                                   false,
-                                                                   false,
-                                                                   true,
-                                                                   false)),
-                                                                   (String
-                                                                   ((Ascii
-                                                                   (true,
-                                                                   true,
-                                                                   true,
-                                                                   true,
-                                                                   false,
-                                                                   false,
-                                                                   true,
-                                                                   false)),
-                                                                   (String
-                                                                   ((Ascii
-                                                                   (true,
-                                                                   false,
-                                                                   false,
-                                                                   true,
-                                                                   false,
-                                                                   false,
-                                                                   true,
-                                                                   false)),
-                                                                   (String
-                                                                   ((Ascii
-                                                                   (false,
-                                                                   true,
-                                                                   true,
-                                                                   true,
-                                                                   false,
-                                                                   false,
-                                                                   true,
-                                                                   false)),
-                                                                   EmptyString))))))))) :: (
-                                                                (r_num id) :: (line :: [])))) :: 
-                                                              (run_lines sv'
-                                                                seen'
-                                                                (app acks
-                                                                  (resp_acks
-                                                                    p)) bg
-                                                                eps rest))
+                                                                  bg eps rest))
                                                          | None ->
-                                                           ((Npos (XI (XI (XI
-                                                             (XI (XI
-                                                             XH)))))) :: []) :: 
-                                                             (run_lines sv
-                                                               seen acks bg
-                                                               eps rest))
-                                                      | _ :: _ ->
+                                                           if match inner with
+                                                              | [] -> false
+                                                              | t0 :: _ ->
+                                                                is_kw (String
+                                                                  ((Ascii
+                                                                  (true,
+                                                                  true,
+                                                                  false,
+                                                                  false,
+                                                                  true,
+                                                                  false,
+                                                                  true,
+                                                                  false)),
+                                                                  (String
+                                                                  ((Ascii
+                                                                  (true,
+                                                                  false,
+                                                                  true,
+                                                                  false,
+                                                                  false,
+                                                                  false,
+                                                                  true,
+                                                                  false)),
+                                                                  (String
+                                                                  ((Ascii
+                                                                  (true,
+                                                                  false,
+                                                                  false,
+                                                                  false,
+                                                                  true,
+                                                                  false,
+                                                                  true,
+                                                                  false)),
+                                                                  EmptyString))))))
+                                                                  t0
+                                                           then let (
+                                                                  p, line) =
+                                                                  run_seq_parts
+                                                                    sv seen
+                                                                    acks
+                                                                    (tl inner)
+                                                                in
+                                                                let (
+                                                                  p0, acks') =
+                                                                  p
+                                                                in
+                                                                let (
+                                                                  sv', seen') =
+                                                                  p0
+                                                                in
+                                                                (kw (String
+                                                                  ((Ascii
+                                                                  (false,
+                                                                  true,
+                                                                  false,
+                                                                  false,
+                                                                  false,
+                                                                  false,
+                                                                  true,
+                                                                  false)),
+                                                                  (String
+                                                                  ((Ascii
+                                                                  (true,
+                                                                  true, true,
+                                                                  false,
+                                                                  false,
+                                                                  false,
+                                                                  true,
+                                                                  false)),
+                                                                  EmptyString))))) :: 
+                                                                (run_lines
+                                                                  sv' seen'
+                                                                  acks' ((id,
+                                                                  line) :: bg)
+                                                                  eps rest)
+                                                           else (match 
+                                                                 parse_op
+                                                                   inner with
+                                                                 | Some r ->
+                                                                   let (
+                                                                    sv', p) =
+                                                                    api_step
+                                                                    sv r
+                                                                   in
+                                                                   let (
+                                                                    line,
+                                                                    seen') =
+                                                                    render
+                                                                    seen r p
+                                                                   in
+                                                                   (kw
+                                                                    (String
+                                                                    ((Ascii
+                                                                    (false,
+                                                                    true,
+                                                                    false,
+                                                                    false,
+                                                                    false,
+                                                                    false,
+                                                                    true,
+                                                                    false)),
+                                                                    (String
+                                                                    ((Ascii
+                                                                    (true,
+                                                                    true,
+                                                                    true,
+                                                                    false,
+                                                                    false,
+                                                                    false,
+                                                                    true,
+                                                                    false)),
+                                                                    EmptyString))))) :: 
+                                                                   (run_lines
+                                                                    sv' seen'
+                                                                    (app acks
+                                                                    (resp_acks
+                                                                    p)) ((id,
+                                                                    line) :: bg)
+                                                                    eps rest)
+                                                                 | None ->
+                                                                   ((Npos (XI
+                                                                    (XI (XI
+                                                                    (XI (XI
+                                                                    XH)))))) :: []) :: 
+                                                                    (run_lines
+                                                                    sv seen
+                                                                    acks bg
+                                                                    eps rest)))
+                                                      | None ->
                                                         ((Npos (XI (XI (XI
                                                           (XI (XI
                                                           XH)))))) :: []) :: 
                                                           (run_lines sv seen
                                                             acks bg eps rest)))
-                                             else (match parse_op ts0 with
-                                                   | Some r ->
-                                                     let (sv', p) =
-                                                       api_step sv r
-                                                     in
-                                                     let (line, seen') =
-                                                       render seen r p
-                                                     in
-                                                     line :: (run_lines sv'
-                                                               seen'
-                                                               (app acks
-                                                                 (resp_acks p))
-                                                               bg eps rest)
-                                                   | None ->
-                                                     ((Npos (XI (XI (XI (XI
-                                                       (XI
-                                                       XH)))))) :: []) :: 
-                                                       (run_lines sv seen
-                                                         acks bg eps rest)))
+                                             else if is_kw (String ((Ascii
+                                                       (false, true, false,
+                                                       true, false, false,
+                                                       true, false)), (String
+                                                       ((Ascii (true, true,
+                                                       true, true, false,
+                                                       false, true, false)),
+                                                       (String ((Ascii (true,
+                                                       false, false, true,
+                                                       false, false, true,
+                                                       false)), (String
+                                                       ((Ascii (false, true,
+                                                       true, true, false,
+                                                       false, true, false)),
+                                                       EmptyString)))))))) op
+                                                  then (match args with
+                                                        | [] ->
+                                                          ((Npos (XI (XI (XI
+                                                            (XI (XI
+                                                            XH)))))) :: []) :: 
+                                                            (run_lines sv
+                                                              seen acks bg
+                                                              eps rest)
+                                                        | idt :: l ->
+                                                          (match l with
+                                                           | [] ->
+                                                             (match p_nat idt with
+                                                              | Some id ->
+                                                                (match 
+                                                                 alookup
+                                                                   N.eqb id bg with
+                                                                 | Some line ->
+                                                                   (join_sp
+                                                                    ((kw
+                                                                    (String
+                                                                    ((Ascii
+                                                                    (false,
+                                                                    true,
+                                                                    false,
+                                                                    true,
+                                                                    false,
+                                                                    false,
+                                                                    true,
+                                                                    false)),
+                                                                    (String
+                                                                    ((Ascii
+                                                                    (true,
+                                                                    true,
+                                                                    true,
+                                                                    true,
+                                                                    false,
+                                                                    false,
+                                                                    true,
+                                                                    false)),
+                                                                    (String
+                                                                    ((Ascii
+                                                                    (true,
+                                                                    false,
+                                                                    false,
+                                                                    true,
+                                                                    false,
+                                                                    false,
+                                                                    true,
+                                                                    false)),
+                                                                    (String
+                                                                    ((Ascii
+                                                                    (false,
+                                                                    true,
+                                                                    true,
+                                                                    true,
+                                                                    false,
+                                                                    false,
+                                                                    true,
+                                                                    false)),
+                                                                    EmptyString))))))))) :: (
+                                                                    (r_num id) :: (line :: [])))) :: 
+                                                                    (run_lines
+                                                                    sv seen
+                                                                    acks
+                                                                    (aremove
+                                                                    N.eqb id
+                                                                    bg) eps
+                                                                    rest)
+                                                                 | None ->
+                                                                   let (
+                                                                    sv', p) =
+                                                                    api_step
+                                                                    sv (RJoin
+                                                                    id)
+                                                                   in
+                                                                   let (
+                                                                    line,
+                                                                    seen') =
+                                                                    render
+                                                                    seen
+                                                                    (RJoin
+                                                                    id) p
+                                                                   in
+                                                                   (join_sp
+                                                                    ((kw
+                                                                    (String
+                                                                    ((Ascii
+                                                                    (false,
+                                                                    true,
+                                                                    false,
+                                                                    true,
+                                                                    false,
+                                                                    false,
+                                                                    true,
+                                                                    false)),
+                                                                    (String
+                                                                    ((Ascii
+                                                                    (true,
+                                                                    true,
+                                                                    true,
+                                                                    true,
+                                                                    false,
+                                                                    false,
+                                                                    true,
+                                                                    false)),
+                                                                    (String
+                                                                    ((Ascii
+                                                                    (true,
+                                                                    false,
+                                                                    false,
+                                                                    true,
+                                                                    false,
+                                                                    false,
+                                                                    true,
+                                                                    false)),
+                                                                    (String
+                                                                    ((Ascii
+                                                                    (false,
+                                                                    true,
+                                                                    true,
+                                                                    true,
+                                                                    false,
+                                                                    false,
+                                                                    true,
+                                                                    false)),
+                                                                    EmptyString))))))))) :: (
+                                                                    (r_num id) :: (line :: [])))) :: 
+                                                                   (run_lines
+                                                                    sv' seen'
+                                                                    (app acks
+                                                                    (resp_acks
+                                                                    p)) bg
+                                                                    eps rest))
+                                                              | None ->
+                                                                ((Npos (XI
+                                                                  (XI (XI (XI
+                                                                  (XI
+                                                                  XH)))))) :: []) :: 
+                                                                  (run_lines
+                                                                    sv seen
+                                                                    acks bg
+                                                                    eps rest))
+                                                           | _ :: _ ->
+                                                             ((Npos (XI (XI
+                                                               (XI (XI (XI
+                                                               XH)))))) :: []) :: 
+                                                               (run_lines sv
+                                                                 seen acks bg
+                                                                 eps rest)))
+                                                  else (match parse_op ts0 with
+                                                        | Some r ->
+                                                          let (sv', p) =
+                                                            api_step sv r
+                                                          in
+                                                          let (line, seen') =
+                                                            render seen r p
+                                                          in
+                                                          line :: (run_lines
+                                                                    sv' seen'
+                                                                    (app acks
+                                                                    (resp_acks
+                                                                    p)) bg
+                                                                    eps rest)
+                                                        | None ->
+                                                          ((Npos (XI (XI (XI
+                                                            (XI (XI
+                                                            XH)))))) :: []) :: 
+                                                            (run_lines sv
+                                                              seen acks bg
+                                                              eps rest)))
 
 (** val tokens : str -> str list **)
 
